@@ -4,6 +4,8 @@
 (*                                                                         *)
 (* An abstract declaration is one of                                       *)
 (*   [k |-> "record", fields |-> <<[n, t]>>]                               *)
+(*   [k |-> "recgroup", fields]  (a record of a `type .. and ..` group     *)
+(*        whose field types mention a later record of the group / itself)  *)
 (*   [k |-> "union", gen |-> BOOLEAN, cases |-> <<[n, has, t]>>]           *)
 (*        (a generic union has one type parameter T; a case with has and   *)
 (*         t = <<"base", "T">> carries it)                                 *)
@@ -46,6 +48,9 @@ Inst(t) == IF t = B("T") THEN B("string")
 
 Fo(d) ==
   CASE d.k = "record" -> "type R@ = {" \o JoinStr([i \in 1..Len(d.fields) |-> d.fields[i].n \o ": " \o FoT(d.fields[i].t)], "; ") \o "}\n"
+    \* a record in an `and` group: its fields may mention the record S@ declared AFTER it, or R@ itself (through a slice)
+    [] d.k = "recgroup" -> "type R@ = {" \o JoinStr([i \in 1..Len(d.fields) |-> d.fields[i].n \o ": " \o FoT(d.fields[i].t)], "; ") \o "}\n"
+                           \o "and S@ = {Z: int}\n"
     [] d.k = "union"  -> "type U@" \o (IF d.gen THEN "<T>" ELSE "") \o " =\n" \o
                          CatS([i \in 1..Len(d.cases) |-> "| " \o d.cases[i].n \o "@" \o (IF d.cases[i].has THEN " of " \o FoT(d.cases[i].t) ELSE "") \o "\n"])
     [] d.k = "func"   -> "let f@ " \o (IF d.params = <<>> THEN "()" ELSE JoinStr([i \in 1..Len(d.params) |-> "(a" \o ToString(i) \o ":" \o FoT(d.params[i]) \o ")"], " "))
@@ -57,6 +62,9 @@ Fo(d) ==
 Surface(d) ==
   CASE d.k = "record" ->
          <<"var _ = struct{" \o JoinStr([i \in 1..Len(d.fields) |-> d.fields[i].n \o " " \o GoT(d.fields[i].t)], "; ") \o "}(R@{})">>
+    [] d.k = "recgroup" ->       \* same fields in the same order whether or not their types are known when the record is read
+         <<"var _ = struct{" \o JoinStr([i \in 1..Len(d.fields) |-> d.fields[i].n \o " " \o GoT(d.fields[i].t)], "; ") \o "}(R@{})",
+           "var _ = struct{Z int}(S@{})">>
     [] d.k = "union"  ->
          LET ta == IF d.gen THEN "[string]" ELSE ""
              U == "U@" \o ta
